@@ -817,6 +817,7 @@ class C16(ThreadCheck):
     theorems = ['CppUtil.Props.c16_initial', 'CppUtil.Props.c16_min_le_cur', 'CppUtil.Props.c16_contains_cur_next', 'CppUtil.Props.c16_quiescent', 'CppUtil.Props.c16_head_is_new',
                 'CppUtil.Props.c16_protocol_count', 'CppUtil.Props.c16_protocol_step', 'CppUtil.Props.c16_protocol_min_le_later_cur',
                 'CppUtil.Props.c16_protocol_quiescent', 'CppUtil.Props.proto_quiet_start', 'CppUtil.Props.proto_quiet_create',
+                'CppUtil.Props.c16_protocol_forward_returns',
                 'CppUtil.Props.c17_protocol_forward_enabled']
     categories = ['epoch']
     kinds = ('epoch',)
